@@ -69,12 +69,15 @@ pub fn pick(i: u16, len: usize) -> usize {
     ((i as usize) * len) >> 16
 }
 
-/// A spinning rendezvous for `n` threads (reusable), used to make threads hit
-/// a window at (nearly) the same instant.
+/// A rendezvous for `n` threads (reusable) used to make threads hit a window at (nearly) the same
+/// instant: it spins first and falls back to blocking, so that a party that never arrives (a deadlock
+/// elsewhere) leaves the waiters asleep, where the blocked-state detector can see them.
 pub struct SpinBarrier {
     n: usize,
     count: std::sync::atomic::AtomicUsize,
     gen: std::sync::atomic::AtomicUsize,
+    m: std::sync::Mutex<()>,
+    cv: std::sync::Condvar,
 }
 
 impl SpinBarrier {
@@ -83,6 +86,8 @@ impl SpinBarrier {
             n,
             count: std::sync::atomic::AtomicUsize::new(0),
             gen: std::sync::atomic::AtomicUsize::new(0),
+            m: std::sync::Mutex::new(()),
+            cv: std::sync::Condvar::new(),
         }
     }
     pub fn wait(&self) {
@@ -90,15 +95,21 @@ impl SpinBarrier {
         let gen = self.gen.load(SeqCst);
         if self.count.fetch_add(1, SeqCst) + 1 == self.n {
             self.count.store(0, SeqCst);
+            let _g = self.m.lock().unwrap_or_else(|e| e.into_inner());
             self.gen.fetch_add(1, SeqCst);
+            self.cv.notify_all();
         } else {
             let mut spins = 0u32;
             while self.gen.load(SeqCst) == gen {
                 spins += 1;
-                if spins > 20_000 {
-                    std::thread::yield_now();
-                } else {
+                if spins < 30_000 {
                     std::hint::spin_loop();
+                } else {
+                    let mut g = self.m.lock().unwrap_or_else(|e| e.into_inner());
+                    while self.gen.load(SeqCst) == gen {
+                        g = self.cv.wait(g).unwrap_or_else(|e| e.into_inner());
+                    }
+                    break;
                 }
             }
         }
